@@ -11,7 +11,7 @@ P = {
         "tolerances are c*eps*kappa with kappa computed per case from the input (first-order perturbation bound, see convref.hpp) and c = 2000 calibrated >= 100x the largest ratio observed; inputs closer than kappa = 1e6 to the singular set are outside the claim",
     ],
     "tiers": tiers(
-        quick=[{"name": "rand", "mode": "run", "count": 12000, "max_size": 100, "shards": 16}],
-        thorough=[{"name": "rand", "mode": "run", "count": 150000, "max_size": 100, "shards": 16, "max_seconds": 1500}],
+        quick=[{"name": "rand", "mode": "run", "count": 40000, "max_size": 100, "shards": 16}],
+        thorough=[{"name": "rand", "mode": "run", "count": 400000, "max_size": 100, "shards": 16, "max_seconds": 1500}],
     ),
 }
